@@ -47,7 +47,7 @@ theorem C14_delay_echoes (C : FxChain ℝ φ) (g : Frame ℝ → Frame ℝ) (hg0
   refine ⟨_, _, hp, ?_⟩
   intro t htn
   have hh0 : (fun f => (g f).scale (asAmplitude d.feedback.raw)) (Frame.zero : Frame ℝ) = Frame.zero := by
-    simp only [hg0, Frame.zero_scale]
+    simp only [hg0, FrameB.zero_scale]
   obtain ⟨L', rfl⟩ : ∃ L', L = L' + 1 := ⟨L - 1, by omega⟩
   have hw := Delay.lineRun_impulse (fun f => (g f).scale (asAmplitude d.feedback.raw)) hh0 L' n x0 t htn
   simp only [Delay.perFrame, hbuf]
@@ -90,7 +90,7 @@ theorem C14_delay_recirculates (C : FxChain ℝ φ) (d : Delay ℝ φ) (dt : ℝ
     intro T
     induction T with
     | nil => intro n hn; subst hn; rfl
-    | cons t T ih => intro n hn; subst hn; simp [List.replicate_succ, Frame.zero_add, ih T.length rfl]
+    | cons t T ih => intro n hn; subst hn; simp [List.replicate_succ, FrameB.zero_add, ih T.length rfl]
   have hbl : ∀ (T : List (Frame ℝ)) (n : ℕ) (m : ℝ), T.length = n →
       List.zipWith (fun t x => blend t x m) T (List.replicate n (Frame.zero : Frame ℝ))
         = T.map (fun t => blend t Frame.zero m) := by
@@ -111,9 +111,9 @@ theorem C14_delay_recirculates (C : FxChain ℝ φ) (d : Delay ℝ φ) (dt : ℝ
 theorem C14_delay_echo_amplitude (G a : ℝ) (x0 : Frame ℝ) (k : ℕ) :
     (fun f : Frame ℝ => (f.scale G).scale a)^[k] x0 = x0.scale ((G * a) ^ k) := by
   induction k generalizing x0 with
-  | zero => simp [Frame.scale_one]
+  | zero => simp [FrameB.scale_one]
   | succ k ih =>
-    rw [Function.iterate_succ_apply, ih, Frame.scale_scale, Frame.scale_scale, pow_succ]
+    rw [Function.iterate_succ_apply, ih, FrameB.scale_scale, FrameB.scale_scale, pow_succ]
     congr 1; ring
 
 /-- non-vacuity: the suite's gain-only probe effect (offset 0, feedback 0) is such a chain: good, and its
